@@ -24,9 +24,27 @@ PROPS = {
 JUDGE_COL = {"C01": 0, "C03": 1, "C04": 2, "C05": 3, "C06": 4, "C13": 5}
 
 
+class Owners(str):
+    """the property a rejection is attributed to; compares equal to every property that owns the rejection"""
+    also = ()
+
+    def __eq__(self, other):
+        return str.__eq__(self, other) or other in self.also
+
+    def __ne__(self, other):
+        return not self.__eq__(other)
+
+    __hash__ = str.__hash__
+
+
 def owner_of(err):
     """which property a step-wise trace rejection speaks about"""
     e = err
+    if "a needed input is missing" in e:
+        # a line went on with a value for an input nobody supplied: the success that follows is silent (C01), the value is not a fixed point (C03)
+        o = Owners("C01")
+        o.also = ("C03",)
+        return o
     if e.startswith("ask:") or "refused flag" in e:
         return "C13"
     if e.startswith("drain:") or "queue" in e or "tracker" in e or "dependencies" in e or "NoLostWaiter" in e or "solving set" in e \
@@ -146,7 +164,7 @@ def scenarios_for(prog, x, rng, per_prog):
         total = {i: rng.choice(["0", "1"]) for i in inputs}          # a total assignment A
         key = ("A", tuple(sorted(total.items())))
         split = lambda q: {i: v for i, v in total.items() if rng.random() < q}
-        out.append(dict(cfg0=dict(total), answers={}, prompt=False, sched="nat", req=None, key=key))
+        out.append(dict(cfg0=dict(total), answers={}, prompt=False, sched="nat", req=None, key=key, probe_unread=(gk == 0)))
         out.append(dict(cfg0={}, answers=dict(total), prompt=True, sched="nat", req=None, key=key))
         out.append(dict(cfg0=split(0.5), answers=dict(total), prompt=True, sched="rnd", req=None, key=key))
         out.append(dict(cfg0=dict(total), answers={}, prompt=False, sched="rev", req="shuffle", key=key))
@@ -225,6 +243,22 @@ def real_runs(programs, rng, per_prog, snap="full"):
                     traces.append(t2)
                     if not t2.get("overflow"):
                         obs.append(observe(t2, r2, s2, prog, tid, cfg2, meta2))
+            if sc.get("probe_unread") and res["abort"] == "" and not trace.get("overflow"):
+                # the same file once more, an input that NO line read now holding a value that is not valid: nothing may change
+                read = set(n for ev in trace["events"] if ev["ev"] == "attempt" for (k3, n, _d) in ev["reads"] if k3 == "in")
+                # (first those of forms that take part in the solve: their inputs are known to the store)
+                unread = sorted((i for i in cfg0 if i not in read), key=lambda i: (i.split(".")[0] not in res["forms"], i))
+                if unread:
+                    cfg3 = dict(cfg0)
+                    cfg3[unread[0]] = "bad"
+                    tid += 1
+                    meta3 = dict(meta)
+                    meta3.update({"cfg0": cfg3, "unread_invalid": unread[0]})
+                    t3, r3, s3 = runs.run_traced(forms, runs.make_config(cfg3), request, prog["fieldNames"], user=None, chooser=None, mode="prog", snap=snap,
+                                                 tid=tid, body=x["body"], meta=meta3, max_events=2000, names=list(x["formOf"].keys()))
+                    traces.append(t3)
+                    if not t3.get("overflow"):
+                        obs.append(observe(t3, r3, s3, prog, tid, cfg3, meta3))
             if key is not None:
                 # aborts are compared as a class: which of several reachable aborts is hit first depends on the order
                 canon = json.dumps(res if res["abort"] == "" else {"abort": "some"}, sort_keys=True)
